@@ -16,3 +16,22 @@ Proof.
   - rewrite (node_ids_view_bip st n Hn). exact Hf.
   - apply net_variant_bip; auto.
 Qed.
+
+(** the same network under another node naming scheme (integer_ids=True: species 1..N, reactions N+1..N+M; or prefixes):
+    every species label AND every reaction id replaced through an injective map, lists in the same order *)
+Definition rename_rxn (f : N -> N) (r : rxn) : rxn := Rxn (f (rid r)) (rename_side f (lhs r)) (rename_side f (rhs r)).
+Definition rename_net (f : N -> N) (n : net) : net := Net (map f (nspecies n)) (map (rename_rxn f) (nrxns n)).
+
+Lemma rename_net_variant f n : net_variant f n (rename_net f n).
+Proof.
+  split; [apply Permutation_refl|]. exists (map (rename_rxn f) (nrxns n)). split; [|apply Permutation_refl].
+  induction (nrxns n) as [|r l IH]; simpl; constructor; auto.
+  split; [reflexivity|]. split; apply Permutation_refl.
+Qed.
+
+Theorem net_renamed_ids_bip st f n lab p lab' p' :
+  net_ok st n -> net_ok st (rename_net f n) -> coeffs_ok n ->
+  inj_on f (nspecies n ++ map rid (nrxns n)) ->
+  fst (canon_search (view true st n)) = Some (lab, p) -> fst (canon_search (view true st (rename_net f n))) = Some (lab', p') ->
+  lab' = lab /\ geq (canon_graph (view true st (rename_net f n)) p') (canon_graph (view true st n) p).
+Proof. intros H1 H2 H3 H4 Hb Hb'. apply (net_canon_invariant_bip st f n (rename_net f n) lab p lab' p'); auto. apply rename_net_variant. Qed.
